@@ -70,6 +70,40 @@ func init() {
 						{Op: "sub", H: "s", Name: "s"}, {Op: "inc", H: "s", M: "c", V: 4}}},
 					{Name: "p1", Ops: []Op{{Op: "pass"}, {Op: "pass"}}},
 				}}})
+			// "any number of goroutines": two goroutines use a counter of a scope for the first time at the same moment and
+			// increment through the handles they got; every interleaving of probe / lock / allocate / increment with a pass
+			out = append(out, scenarioSet{mode: "dfs", maxExec: 1500, sc: &Scenario{
+				Name: "c01-firstuse-" + rep, Reporter: rep, Points: []string{"op_get", "gc_probe", "gc_lock", "rp_alloc", "op_inc", "op_pass"},
+				Threads: []ThreadSpec{
+					{Name: "a1", Ops: []Op{{Op: "get", H: "root", M: "x", K: "counter"}, {Op: "inc", H: "root", M: "x", V: 1}}},
+					{Name: "a2", Ops: []Op{{Op: "get", H: "root", M: "x", K: "counter"}, {Op: "inc", H: "root", M: "x", V: 2}}},
+					{Name: "p1", Ops: []Op{{Op: "pass"}}},
+				}}})
+			// the closed scope is re-requested on a root whose sanitizer rewrites the tags (the registry then knows the
+			// scope under two keys): what was recorded before Close is reported when the scope is requested again
+			raw := map[string]string{"data-center": "x y"}
+			out = append(out, scenarioSet{mode: "dfs", maxExec: 3000, sc: &Scenario{
+				Name: "c01-reacquire-sanitized-" + rep, Reporter: rep, Sanitize: true, Points: []string{"op_sub", "op_inc", "op_close", "op_pass"},
+				Threads: []ThreadSpec{
+					{Name: "a1", Ops: []Op{{Op: "sub", H: "h", Tags: raw}, {Op: "inc", H: "h", M: "c", V: 1}, {Op: "close", H: "h"},
+						{Op: "sub", H: "h", Tags: raw}, {Op: "inc", H: "h", M: "c", V: 2}, {Op: "inc", H: "h", M: "c", V: 3}}},
+					{Name: "p1", Ops: []Op{{Op: "pass"}, {Op: "pass"}}},
+				}}})
+			// ... and with two goroutines doing so while the report loop and a pass run (all hook points, random schedules):
+			// a pass may have removed the closed scope under one of its two keys only when it is requested again
+			sanOps := []Op{{Op: "sub", H: "h", Tags: raw}, {Op: "inc", H: "h", M: "c", V: 1}, {Op: "close", H: "h"},
+				{Op: "sub", H: "h", Tags: raw}, {Op: "inc", H: "h", M: "c", V: 2}}
+			nsan := 150
+			if thorough {
+				nsan = 10000
+			}
+			out = append(out, scenarioSet{mode: "random", maxExec: nsan, sc: &Scenario{
+				Name: "c01-reacquire-sanitized-two-" + rep, Reporter: rep, Sanitize: true, Shards: 2, Loop: true, MaxTicks: 2,
+				Threads: []ThreadSpec{
+					{Name: "a1", Ops: append(append([]Op{}, sanOps...), Op{Op: "close", H: "h"}, Op{Op: "sub", H: "h", Tags: raw}, Op{Op: "inc", H: "h", M: "c", V: 1})},
+					{Name: "a2", Ops: []Op{{Op: "sub", H: "g", Tags: raw}, {Op: "inc", H: "g", M: "c", V: 1}, {Op: "close", H: "g"}, {Op: "sub", H: "g", Tags: raw}, {Op: "inc", H: "g", M: "c", V: 2}}},
+					{Name: "p1", Ops: []Op{{Op: "pass"}}},
+				}}})
 		}
 		return out
 	}
